@@ -13,13 +13,14 @@ PKG = 'version'
 V = MOD + '/version.'
 ROOTS = [V + n for n in ('verrevcmp', 'VerifC01Rev', 'VerifSpecCmp', 'VerifCompare', 'VerifC01Compare', 'VerifC01Less', 'VerifLess', 'VerifC01Parsed')]
 ALPH = b'ABCDEFGHIJKLMNOPQRSTUVWXYZabcdefghijklmnopqrstuvwxyz0123456789.+~:-'
+DIGITS_DOT = b'0123456789.~a'
 BOUNDS = {'quick': dict(N=4, Nu=2, Nr=1), 'thorough': dict(N=6, Nu=3, Nr=2)}
 META = dict(
     functions_encoded=['version.order', 'version.cisdigit', 'version.cisalpha', 'version.verrevcmp', 'version.Compare',
                        'version.Slice.Len', 'version.Slice.Less', 'version.Parse/parseInto (concrete instances only)'],
     stubs=[],
-    bounds={'quick': 'verrevcmp: all pairs of strings over [A-Za-z0-9.+~:-] with |a|,|b| <= 4; Compare/Less: any 64-bit epochs, upstream <= 2, revision <= 1 bytes per side',
-            'thorough': 'verrevcmp: |a|,|b| <= 6; Compare/Less: any 64-bit epochs, upstream <= 3, revision <= 2'},
+    bounds={'quick': 'verrevcmp: all pairs of strings over [A-Za-z0-9.+~:-] with |a|,|b| <= 4, plus digit runs beyond 64 bits: a 19-, 20- or 40-digit concrete string shared as prefix (or suffix) with symbolic tails (heads) of up to 2 characters over [0-9.~a]; Compare/Less: any 64-bit epochs, upstream <= 2, revision <= 1 bytes per side',
+            'thorough': 'verrevcmp: |a|,|b| <= 6 (plus the long-digit-run families); Compare/Less: any 64-bit epochs, upstream <= 3, revision <= 2'},
     outside_claim=['strings longer than the bound', 'characters outside [A-Za-z0-9.+~:-] (the parser admits no others)'],
     assumptions=['oracle: the Policy 5.6.12 / dpkg verrevcmp algorithm written as SMT terms (checks/specs.py, formulation S2) and, for replay, as Go (harness specCmp); the two are compared on the validation inputs'])
 
@@ -33,17 +34,32 @@ def jobs(tier):
             js.append(dict(name='rev_%d_%d' % (la, lb), kind='rev', la=la, lb=lb))
     for (ua, ra, ub, rb) in itertools.product(range(b['Nu'] + 1), range(b['Nr'] + 1), range(b['Nu'] + 1), range(b['Nr'] + 1)):
         js.append(dict(name='cmp_%d_%d_%d_%d' % (ua, ra, ub, rb), kind='cmp', lens=(ua, ra, ub, rb)))
-    js.sort(key=lambda j: -(j.get('la', 0) + j.get('lb', 0) + sum(j.get('lens', ()))))
+    # digit runs far beyond 64 bits ("no limit on magnitude"): long concrete digit strings shared as prefix or as
+    # suffix, with symbolic heads / tails
+    for fixed in (LONG if tier == 'thorough' else LONG[1:3]):
+        for la in range(0, 3):
+            for lb in range(0, 3):
+                js.append(dict(name='long_pre_%s_%d_%d' % (fixed[:6].decode() + str(len(fixed)), la, lb), kind='long', fixed=fixed, where='prefix', la=la, lb=lb))
+                if la and lb and (tier == 'thorough' or la + lb <= 3):
+                    js.append(dict(name='long_suf_%s_%d_%d' % (fixed[:6].decode() + str(len(fixed)), la, lb), kind='long', fixed=fixed, where='suffix', la=la, lb=lb))
+    js.sort(key=lambda j: -(j.get('la', 0) + j.get('lb', 0) + sum(j.get('lens', ())) + (4 if j['kind'] == 'long' else 0)))
     return js
 
 
+LONG = [b'9' * 19, b'9' * 20, b'1844674407370955161', b'0' * 19, b'9' * 40]
+
+
 def run_job(env, job):
-    if job['kind'] == 'rev':
+    if job['kind'] in ('rev', 'long'):
         la, lb = job['la'], job['lb']
-        I, ctx = env.interp(merge=True, unwind=4 * max(la, lb) + 8, timeout_ms=900000)
         a, b = symstr('a', la), symstr('b', lb)
-        for c in list(a) + list(b):
-            ctx.assume(in_set(c, ALPH))
+        sa, sb = a, b
+        if job['kind'] == 'long':
+            fx = mkstr(job['fixed'])
+            a, b = (Str(fx + a), Str(fx + b)) if job['where'] == 'prefix' else (Str(a + fx), Str(b + fx))
+        I, ctx = env.interp(merge=True, unwind=4 * max(len(a), len(b)) + 8, timeout_ms=900000)
+        for c in list(sa) + list(sb):
+            ctx.assume(in_set(c, ALPH if job['kind'] == 'rev' else DIGITS_DOT))
         outs = I.call(V + 'verrevcmp', [a, b], I.new_state())
         spec = specs.dpkg_cmp(a, b)
         bad = []
@@ -60,7 +76,7 @@ def run_job(env, job):
         if m is not None:
             cex.append(dict(func='VerifC01Rev', args=[model_bytes(m, a), model_bytes(m, b)], kind='ret', code=1))
         return dict(status='viol' if cex else 'ok', cex=cex, obligations=len(outs),
-                    samples=[dict(obligation='forall a in S^%d, b in S^%d: sign(verrevcmp(a,b)) == dpkg_spec(a,b), no panic, loops within %d iterations' % (la, lb, I.unwind), result='sat (counterexample)' if cex else 'unsat')],
+                    samples=[dict(obligation='forall a in S^%d, b in S^%d%s: sign(verrevcmp(a,b)) == dpkg_spec(a,b), no panic, loops within %d iterations' % (la, lb, (' around the shared %s %r' % (job['where'], job['fixed'].decode())) if job['kind'] == 'long' else '', I.unwind), result='sat (counterexample)' if cex else 'unsat')],
                     stats=dict(I.stats, **ctx.stats, solver_time=ctx.solver_time))
     ua, ra, ub, rb = job['lens']
     I, ctx = env.interp(merge=True, unwind=4 * max(job['lens']) + 8, timeout_ms=900000)
